@@ -17,6 +17,7 @@ Monitors sit on ``convexhull_mask`` and ``project_grid`` and judge every return,
 """
 import collections
 import os
+import threading
 import warnings
 
 import numpy as np
@@ -47,6 +48,9 @@ RULE = (
     "non-string names (1, (1, 2), numpy integers, True, 2.5) - compared by type and value. "
     "Extra coordinates (stream extras): data_coordinates with three / four arrays whose ignored height / time is NaN, +inf or -inf at all or some hull vertices, "
     "at interior points or everywhere - same mask as the two-coordinate call. "
+    "Concurrent calls (stream concurrent): 2-4 project_grid calls with the same string method on different grids (same shape, values offset by 1000, own names, "
+    "own affine maps, antialias off) at the same time in threads - with a rendezvous inside the projection callable and in plain rounds - and concurrent "
+    "convexhull_mask calls; each judged against its own inputs and against the same call made alone. "
     "methods nearest/linear/cubic and gridder objects, both antialias settings, region/shape/spacing/dims kwargs; projected grids keep "
     "cell_aspect*(1+offset/extent) <= 1e4 except in the always-on stream pg_anisotropic (>= 1e5, known finding F10). Non-trivial = at least one "
     "query strictly inside and one strictly outside (mask) or a non-identity projection with a non-square grid (project_grid); distinct = "
@@ -117,6 +121,10 @@ for _tier, _n, _pg in (("quick", 60, 600), ("thorough", 1200, 12000)):
 for _tier, _n in (("quick", 50), ("thorough", 1000)):
     FLOORS[_tier].update({"eval:mask_extra_coordinate_invariance": 450 * _n, "extras:form:three_arrays_height": int(0.4 * _n), "extras:form:four_arrays_height_time": int(0.4 * _n),
                           "extras:nan_at_all_hull_vertices": int(0.02 * _n), "extras:posinf_at_some_hull_vertices": int(0.02 * _n), "extras:neginf_at_interior_points": int(0.02 * _n)})
+for _tier, _n in (("quick", 8), ("thorough", 160)):
+    FLOORS[_tier].update({"eval:concurrent_equals_alone": int(0.4 * 11 * _n), "concurrent:project_grid_rendezvous_rounds": int(0.5 * _n),
+                          "concurrent:rendezvous_met": int(0.4 * _n), "concurrent:project_grid_plain_rounds": int(0.5 * _n),
+                          "concurrent:project_grid_shared_inputs_rounds": int(0.5 * _n), "concurrent:convexhull_mask_rounds": int(0.5 * _n)})
 JOBS = {"quick": 1, "thorough": 8}
 CASE_TIMEOUT_S = 300
 
@@ -125,9 +133,9 @@ _STATE = {}
 
 def plan(tier):
     if tier == "quick":
-        out = collections.OrderedDict(cloud=300, lattice=150, thin=200, affine=120, forms=120, layouts=50, twins=50, constructions=30, axes=60, extras=50, pg_affine=250, pg_general=350)
+        out = collections.OrderedDict(cloud=300, lattice=150, thin=200, affine=120, forms=120, layouts=50, twins=50, constructions=30, axes=60, extras=50, concurrent=8, pg_affine=250, pg_general=350)
     else:
-        out = collections.OrderedDict(cloud=6000, lattice=3000, thin=4000, affine=2400, forms=2400, layouts=1000, twins=1000, constructions=600, axes=1200, extras=1000, pg_affine=5000, pg_general=7000)
+        out = collections.OrderedDict(cloud=6000, lattice=3000, thin=4000, affine=2400, forms=2400, layouts=1000, twins=1000, constructions=600, axes=1200, extras=1000, concurrent=160, pg_affine=5000, pg_general=7000)
     # two small always-on streams reproduce the known findings F10 / F11 (known_findings.json) in every run: case 0 of each is a fixed
     # witness, the rest are seeded inputs of the same class. Everything they trigger must match the finding's classifier below,
     # anything else is reported as a plain violation.
@@ -240,16 +248,19 @@ def install(tap, run):
         pass
 
     hull_cache = collections.OrderedDict()
+    hull_lock = threading.Lock()  # monitors also run in the threads of the `concurrent` stream
 
     def make_hull(x, y):
         key = (np.asarray(x, dtype="float64").tobytes(), np.asarray(y, dtype="float64").tobytes())
-        if key in hull_cache:
-            hull_cache.move_to_end(key)
-            return hull_cache[key]
+        with hull_lock:
+            if key in hull_cache:
+                hull_cache.move_to_end(key)
+                return hull_cache[key]
         hull = _make_hull(x, y)
-        hull_cache[key] = hull
-        if len(hull_cache) > 8:
-            hull_cache.popitem(last=False)
+        with hull_lock:
+            hull_cache[key] = hull
+            if len(hull_cache) > 16:
+                hull_cache.popitem(last=False)
         return hull
 
     def _make_hull(x, y):
@@ -1012,6 +1023,8 @@ def run_case(run, tap, stream, index, rng):  # noqa: U100
         _axes_case(run, verde, make_hull, index, rng)
     elif stream == "extras":
         _extras_case(run, verde, make_hull, index, rng)
+    elif stream == "concurrent":
+        _concurrent_case(run, verde, make_hull, index, rng)
     elif stream == "thin_vertices":
         # known finding F11: data points of a thin rotated cloud queried against their own hull
         if index == 0:
@@ -1768,6 +1781,124 @@ def _extras_case(run, verde, make_hull, index, rng):
                                "mask": res, "mask_two_coordinates": ref_res}, key="extras:%s:%s" % (form, where))
     run.sample("extras", {"n_data": n, "non_finite": repr(bad), "where": where, "points_affected": int(sel.sum()), "hull_vertices": int(is_vertex.sum()),
                           "monitor": "mask == exact hull test on (easting, northing) of all data points == two-coordinate call"})
+
+
+class _RendezvousProjection(Projection):
+    """
+    An axis-aligned affine projection that waits for the other threads on its FIRST call (the one project_grid makes before it fits), so
+    that the fit and grid stages of the concurrent calls overlap. The wait has a timeout: an implementation that serialises the calls
+    cannot deadlock, and later calls (the monitor re-projecting the cells) pass straight through.
+    """
+
+    def __init__(self, base, barrier):
+        Projection.__init__(self, base.label + "_rendezvous", base.fn, base.params, base.axis_affine)
+        self.barrier, self.calls, self.waited = barrier, 0, None
+
+    def __call__(self, easting, northing):
+        self.calls += 1
+        if self.calls == 1 and self.barrier is not None:
+            try:
+                self.barrier.wait(timeout=3)
+                self.waited = True
+            except threading.BrokenBarrierError:
+                self.waited = False
+        return Projection.__call__(self, easting, northing)
+
+
+def _concurrent_case(run, verde, make_hull, index, rng):
+    """
+    Several project_grid (same string method, different grids) and convexhull_mask calls at the same time in different threads. The
+    monitors judge every call in its own thread against its own inputs (values reproduced at the projected nodes, name, coordinates,
+    hull); here every threaded result is also compared with the result of the same call made alone beforehand.
+    """
+    import xarray as xr
+    from .. import core
+
+    n_threads = [2, 3, 4][index % 3]
+    method = ["linear", "nearest", "cubic"][index % 3] if index % 4 else "linear"
+    n_n, n_e = int(rng.integers(6, 15)), int(rng.integers(6, 18))
+    if n_n == n_e:
+        n_e += 1
+    east = np.linspace(0.0, float(rng.uniform(5, 50)), n_e) + float(rng.uniform(-100, 100))
+    north = np.linspace(0.0, float(rng.uniform(5, 50)), n_n) + float(rng.uniform(-100, 100))
+    e2, n2 = np.meshgrid(east, north)
+    base_field = gen.smooth_field(rng, e2, n2, amplitude=float(rng.uniform(1, 20)))
+    dims = [("northing", "easting"), ("latitude", "longitude")][index % 2]
+    grids, plain = [], []
+    for k in range(n_threads):
+        vals = base_field * (1 + 0.3 * k) + 1000.0 * k  # same shape, clearly different values
+        if k % 2 and index % 2:
+            vals = vals.copy()
+            vals[(e2 - east[0]) / np.ptp(east) + (n2 - north[0]) / np.ptp(north) < 0.35] = np.nan  # and a different hull
+        grids.append(xr.DataArray(vals, coords={dims[0]: north, dims[1]: east}, dims=dims, name="grid_%d" % k))
+        plain.append(axis_affine(rng, east, north))
+
+    def same(a, b):
+        va, vb = np.asarray(a.values), np.asarray(b.values)
+        return (a.name == b.name and a.dims == b.dims and va.shape == vb.shape and bool(np.all((va == vb) | (np.isnan(va) & np.isnan(vb))))
+                and all(np.array_equal(np.asarray(a.coords[d].values), np.asarray(b.coords[d].values)) for d in a.dims))
+
+    def report(kind, label, outcomes, alone):
+        for k, (res, exc) in enumerate(outcomes):
+            run.evaluated("concurrent_equals_alone")
+            if exc is not None:
+                if isinstance(exc, _STATE["QhullError"]):
+                    run.count("refused:concurrent_qhull")
+                    continue
+                if isinstance(exc, TimeoutError):
+                    run.note_inconclusive("concurrent: %s" % exc)
+                    continue
+                run.violation("concurrent_calls", "%s in thread %d of %d (%s, %s) raised %s: %s - the same call made alone succeeds"
+                              % (kind, k, len(outcomes), label, method, type(exc).__name__, str(exc)[:200]),
+                              {"threads": len(outcomes), "method": method, "round": label}, key="concurrent:exception:" + kind)
+            elif alone[k] is not None and not (same(res, alone[k]) if kind == "project_grid" else np.array_equal(np.asarray(res), np.asarray(alone[k]))):
+                run.violation("concurrent_calls", "%s in thread %d of %d (%s, %s) returns a different result than the same call made alone"
+                              % (kind, k, len(outcomes), label, method),
+                              {"threads": len(outcomes), "method": method, "round": label, "alone": alone[k], "threaded": res,
+                               "alone_values": np.asarray(getattr(alone[k], "values", alone[k])), "threaded_values": np.asarray(getattr(res, "values", res))},
+                              key="concurrent:differs:" + kind)
+
+    with warnings.catch_warnings():
+        warnings.simplefilter("ignore")
+        alone = []
+        for k in range(n_threads):
+            try:
+                alone.append(verde.project_grid(grids[k], plain[k], method=method, antialias=False))
+            except _STATE["QhullError"]:
+                alone.append(None)
+        # (a) rendezvous inside the projection: every call has projected its cells before any of them fits
+        barrier = threading.Barrier(n_threads)
+        waiting = [_RendezvousProjection(plain[k], barrier) for k in range(n_threads)]
+        outcomes = core.run_threads([(lambda k=k: verde.project_grid(grids[k], waiting[k], method=method, antialias=False)) for k in range(n_threads)])
+        run.count("concurrent:project_grid_rendezvous_rounds")
+        run.count("concurrent:rendezvous_met" if all(w.waited for w in waiting) else "concurrent:rendezvous_timed_out")
+        report("project_grid", "rendezvous", outcomes, alone)
+        # (b) plain rounds, no barrier
+        outcomes = core.run_threads([(lambda k=k: verde.project_grid(grids[k], plain[k], method=method, antialias=False)) for k in range(n_threads)], rounds=2)
+        run.count("concurrent:project_grid_plain_rounds")
+        report("project_grid", "plain", outcomes, alone)
+        run.count("concurrent:method_%s:%d_threads" % (method, n_threads))
+        # (c) the same grid object and projection shared by all threads
+        outcomes = core.run_threads([(lambda: verde.project_grid(grids[0], plain[0], method=method, antialias=False)) for _ in range(n_threads)])
+        run.count("concurrent:project_grid_shared_inputs_rounds")
+        report("project_grid", "shared_inputs", outcomes, [alone[0]] * n_threads)
+        # (d) convexhull_mask: different clouds, array and grid forms
+        clouds, queries, masks_alone = [], [], []
+        for k in range(n_threads):
+            dx, dy = gen.cloud(rng, int(rng.choice([8, 30, 80])), kind=str(rng.choice(["uniform", "jitter", "clusters"])))
+            hull = make_hull(dx, dy)
+            qx, qy = queries_for(rng, hull, dx, dy, n_uniform=100, n_edge=20)
+            clouds.append((dx, dy))
+            queries.append((qx, qy))
+            masks_alone.append(_mask_call(run, verde, (dx, dy), coordinates=(qx, qy)))
+        outcomes = core.run_threads([(lambda k=k: verde.convexhull_mask(clouds[k], coordinates=queries[k])) for k in range(n_threads)], rounds=2)
+        run.count("concurrent:convexhull_mask_rounds")
+        outcomes = [(r, None if isinstance(e, (_STATE["QhullError"], ValueError)) and masks_alone[k] is None else e) if e is not None else (r, e)
+                    for k, (r, e) in enumerate(outcomes)]
+        report("convexhull_mask", "plain", [(r, e) for (r, e) in outcomes if not (r is None and e is None)],
+               [m for m, (r, e) in zip(masks_alone, outcomes) if not (r is None and e is None)])
+    run.sample("concurrent", {"threads": n_threads, "method": method, "grid_shape": [n_n, n_e], "names": [g.name for g in grids],
+                              "monitor": "every threaded call judged against its own inputs by the project_grid / mask monitors, and equal to the call made alone"})
 
 
 def finish(run, tap, shard):  # noqa: U100
